@@ -98,6 +98,8 @@ impl UserDefinedDataWriter {
 
         self.publication_matched_status.current_count = self.matched_subscription_list.len() as i32;
         self.publication_matched_status.current_count_change -= 1;
+        self.status_condition
+            .add_communication_state(StatusKind::PublicationMatched);
 
         // The reader is gone: stop sending to it and stop waiting for its acknowledgments
         self.writer
